@@ -118,10 +118,15 @@ def gen_cases(seed: int, quick: bool) -> T.List[dict]:
     for hi, ln in enumerate(lengths):
         hist = gen_history(rnd, ln)
         if hi % 2 == 1:
-            hist[0][1] = dict(hist[0][1], **{NATIVE_KEY: '1'})
+            hist[0][1] = dict(hist[0][1], **{NATIVE_KEY: 'pipe' if hi % 4 == 3 else '1'})
         for x in xs:
             cases.append({'variant': 'nolang', 'pre_dir': None, 'history': hist,
                           'x': [x, {} if x == 'wipe' else xopts(2)]})
+    # the machine file of the first setup came through a pipe: its private copy is the only one there is
+    hist = gen_history(rnd, 1)
+    hist[0][1] = dict(hist[0][1], **{NATIVE_KEY: 'pipe'})
+    for x in (['wipe'] if quick else ['wipe', 'reconfigure']):
+        cases.append({'variant': 'nolang', 'pre_dir': None, 'history': hist, 'x': [x, {} if x == 'wipe' else xopts(2)]})
     for pre_dir in (['absent'] if quick else ['absent', 'empty', 'absent', 'empty']):
         cases.append({'variant': 'nolang', 'pre_dir': pre_dir, 'history': [], 'x': ['setup', xopts(2)]})
     if not quick:
@@ -142,7 +147,9 @@ def argv_for(cmd: str, opts: T.Dict[str, str], B: str, S: str) -> T.List[str]:
     if opts.get(NATIVE_KEY):
         # values that come from a machine file live only in the persisted configuration (and the recorded command line
         # names the file): a killed command must not lose them either
-        d = ['--native-file', os.path.join(os.path.dirname(S), 'native.ini')] + d
+        # '1': a regular file; 'pipe': a FIFO (meson then keeps a private copy meson-private/<uuid>.native.ini, which is
+        # the only place the content survives)
+        d = ['--native-file', os.path.join(os.path.dirname(S), 'native.fifo' if opts[NATIVE_KEY] == 'pipe' else 'native.ini')] + d
     if cmd in ('setup', 'setup_again'):
         return ['setup'] + d + [B, S]
     if cmd == 'reconfigure':
@@ -276,11 +283,28 @@ class Site:
         mesondrv.write_tree(self.S, CVARIANT if case['variant'] == 'c' else NOLANG)
         mesondrv.write_tree(root, {'native.ini': NATIVE_INI})
 
+    def feed_fifo(self) -> None:
+        import threading
+        path = os.path.join(self.root, 'native.fifo')
+        if not os.path.exists(path):
+            os.mkfifo(path)
+
+        def writer() -> None:
+            with open(path, 'w') as f:       # blocks until meson opens the other end
+                f.write(NATIVE_INI)
+        threading.Thread(target=writer, daemon=True).start()
+
     def run_history(self, inproc: bool) -> None:
         for cmd, opts in self.case['history']:
             args = argv_for(cmd, opts, self.B, self.S)
+            piped = opts.get(NATIVE_KEY) == 'pipe'
+            if piped:
+                self.feed_fifo()
             r = mesondrv.run_inproc(args, cwd=self.root) if inproc else sub(args, self.pyc, self.root)
             if inproc and (r.rc != 0 or r.unhandled):
+                if piped:
+                    shutil.rmtree(self.B, ignore_errors=True)
+                    self.feed_fifo()
                 r = sub(args, self.pyc, self.root)
             if r.rc != 0 or r.unhandled:
                 raise HarnessError(f'history command {args} failed (generator must only produce successful histories): {r!r}')
@@ -379,6 +403,7 @@ def judge_one(site: Site, fa: T.List[str], pre: T.Dict[str, T.Any], post: T.Dict
         errs = [l for l in r.text.splitlines() if 'ERROR:' in l]
         first = norm_msg(errs[0] if errs else r.text.strip().splitlines()[-1] if r.text.strip() else f'exit {r.rc}', site)
         first = re.sub(r'^.*ERROR:\s*', '', first)
+        first = re.sub(r'[0-9a-fA-F]{8}-[0-9a-fA-F]{4}-[0-9a-fA-F]{4}-[0-9a-fA-F]{4}-[0-9a-fA-F]{12}', 'UUID', first)
         return (f'followup-error/{slug(first)}',
                 f'`{shown}` after the kill exits {r.rc} (manual repair needed): {first}\n' + norm_msg(r.text[-1200:], site)), 'error', noop
     vals, ri = site.introspect(inproc)
@@ -473,10 +498,16 @@ def kill_and_judge(site: Site, M: T.List[list], k: int, mode: str, pre: dict, po
         os.unlink(log)
     r = sub(site.xargs(), site.pyc, site.root, shim_env(site.B, log, k, mode))
     got = read_mlist(log)
-    if r.rc != 137 or len(got) != k or not same_op(got[-1], M[k - 1]):
+    if r.rc != 137 or len(got) != k:
         raise HarnessError(f'kill point not reproducible: case {case}, k={k}/{len(M)} expected {M[k - 1]}, child rc={r.rc}, '
                            f'logged {got[-2:]}; {r!r}')
     op, path, size = M[k - 1]
+    if not same_op(got[-1], M[k - 1]):
+        # the command's k-th mutation is not the one of the recording run (its order of work depends on something that
+        # differs between two runs on identical directories, e.g. a directory listing): it is a kill point all the same
+        op, path, size = got[-1][0], got[-1][1], (got[-1][2] if len(got[-1]) > 2 else -1)
+        if ev is not None:
+            ev.event('kill point differs from the recording run (order of the command\'s work is not fixed)')
     dg = digest(site.B, site.root)
     intermediate = dg != site.pre_digest and dg != post_digest
     if memo is not None and dg in memo:
